@@ -31,6 +31,8 @@ import (
 	"testing"
 	"time"
 
+	"github.com/alicebob/miniredis/v2"
+
 	"tunnox-core/internal/cloud/models"
 	"tunnox-core/internal/cloud/repos"
 	cloudutils "tunnox-core/internal/cloud/utils"
@@ -38,6 +40,7 @@ import (
 	"tunnox-core/internal/core/idgen"
 	"tunnox-core/internal/core/storage"
 	"tunnox-core/internal/core/storage/memory"
+	"tunnox-core/internal/core/storage/types"
 	vk "tunnox-core/internal/verifkit"
 )
 
@@ -52,10 +55,11 @@ type c06Node struct {
 
 type c06World struct {
 	cancel       context.CancelFunc
-	backend      string            // "memory": one store shared by all nodes; "hybrid": one hybrid.Storage per node (own local cache, one shared cache)
-	mem          *memory.Storage   // the store holding shared data (memory backend: the only store; hybrid: the shared cache tier)
-	locals       []*memory.Storage // hybrid: node-local cache tiers
-	gates        []*vk.Gated       // every gated tier double
+	backend      string                // "memory": one store shared by all nodes; "hybrid": one hybrid.Storage per node (own local cache, one shared cache)
+	rds          *storage.RedisStorage // redis backends: the shared store
+	mem          *memory.Storage       // the store holding shared data (memory backend: the only store; hybrid: the shared cache tier)
+	locals       []*memory.Storage     // hybrid: node-local cache tiers
+	gates        []*vk.Gated           // every gated tier double
 	nodes        []*c06Node
 	code         *models.TunnelConnectionCode
 	createCall   time.Time // instants around CreateConnectionCode (interval oracle)
@@ -82,21 +86,65 @@ func c06NewWorld(t testing.TB, nNodes int, activationTTL time.Duration) *c06Worl
 }
 
 func c06NewWorldB(t testing.TB, backend string, nNodes int, activationTTL time.Duration) *c06World {
-	ctx, cancel := context.WithCancel(context.Background())
+	return c06NewWorldOpt(t, c06Opts{Backend: backend, Nodes: nNodes, TTL: activationTTL})
+}
+
+// c06Opts: Backend is one of
+//
+//	memory        one memory store shared by all nodes
+//	hybrid        one hybrid.Storage per node: own local memory cache + one shared memory cache
+//	redis         one Redis store (miniredis) shared by all nodes
+//	hybrid-redis  one hybrid.Storage per node: own local memory cache + shared Redis (miniredis)
+type c06Opts struct {
+	Backend      string
+	Nodes        int
+	TTL          time.Duration
+	TargetClient int64 // 0 = c06TargetClient
+}
+
+func c06NewWorldOpt(t testing.TB, o c06Opts) *c06World {
+	ctx, cancel0 := context.WithCancel(context.Background())
+	cancel := cancel0
+	backend, nNodes, activationTTL := o.Backend, o.Nodes, o.TTL
 	if backend == "" {
 		backend = "memory"
 	}
-	w := &c06World{cancel: cancel, targetClient: c06TargetClient, backend: backend}
-	w.mem = memory.New(ctx)
+	w := &c06World{targetClient: c06TargetClient, backend: backend}
+	if o.TargetClient != 0 {
+		w.targetClient = o.TargetClient
+	}
+	var sharedInner types.FullStorage
 	tier := "mem"
+	switch backend {
+	case "redis", "hybrid-redis":
+		mr, err := miniredis.Run()
+		if err != nil {
+			cancel0()
+			t.Fatalf("c06: miniredis: %v", err)
+		}
+		rs, err := storage.NewRedisStorage(ctx, &storage.RedisConfig{Addr: mr.Addr()})
+		if err != nil {
+			mr.Close()
+			cancel0()
+			t.Fatalf("c06: redis storage: %v", err)
+		}
+		w.rds = rs
+		sharedInner = rs
+		tier = "redis"
+		cancel = func() { cancel0(); _ = rs.Close(); mr.Close() }
+	default:
+		w.mem = memory.New(ctx)
+		sharedInner = w.mem
+	}
+	w.cancel = cancel
 	if backend == "hybrid" {
 		tier = "shared"
 	}
-	gShared := vk.NewGated(tier, w.mem)
+	gShared := vk.NewGated(tier, sharedInner)
 	w.gates = append(w.gates, gShared)
 	for i := 0; i < nNodes; i++ {
 		var st storage.Storage = gShared
-		if backend == "hybrid" {
+		if backend == "hybrid" || backend == "hybrid-redis" {
 			// a node of a clustered deployment: own local cache, the cluster's shared cache, no database
 			local := memory.New(ctx)
 			gLocal := vk.NewGated(fmt.Sprintf("local%d", i), local)
@@ -221,7 +269,26 @@ type c06Scan struct {
 
 func (w *c06World) scan() *c06Scan {
 	sc := &c06Scan{Mains: map[string]*models.PortMapping{}, IdxRefs: map[string][]string{}, CodeBy: map[string]*models.TunnelConnectionCode{}}
-	all, _ := w.mem.QueryByPrefix("tunnox:", 0)
+	all := map[string]string{}
+	if w.mem != nil {
+		all, _ = w.mem.QueryByPrefix("tunnox:", 0)
+	}
+	if w.rds != nil {
+		// same representation as the memory dump: strings as they are, lists as JSON arrays of strings
+		keys, _ := w.rds.GetKeys("tunnox:*")
+		for _, k := range keys {
+			if v, err := w.rds.Get(k); err == nil {
+				if s, ok := v.(string); ok {
+					all[k] = s
+				}
+				continue
+			}
+			if l, err := w.rds.GetList(k); err == nil {
+				b, _ := json.Marshal(l)
+				all[k] = string(b)
+			}
+		}
+	}
 	for i, l := range w.locals {
 		// anything a node keeps only in its local tier is still part of the observable state
 		part, _ := l.QueryByPrefix("tunnox:", 0)
@@ -1422,4 +1489,59 @@ func TestVerifC06Hybrid(t *testing.T) {
 	if run.Counter("watchdog") > 0 {
 		run.Floor("watchdog_free", 1)
 	}
+}
+
+// ---------------------------------------------------------------------------
+// monitor 6: client ids across the whole int64 range, on serialising stores
+// ---------------------------------------------------------------------------
+
+func TestVerifC06WideIDs(t *testing.T) {
+	vk.Quiet()
+	run := vk.Start(t, "C06", "wide-ids")
+	defer run.Finish()
+	run.Rule("target client id (fixed at generation) and listen client id (activator) drawn from {8-digit ordinary, 2^53-1, 2^53+1, 2^53+3, 2^62+1, MaxInt64-1, MaxInt64}, every pair, on four backends (memory; hybrid with shared memory cache; Redis via miniredis; hybrid with shared Redis); sequence: rejected attempt via node 1 (reads the code), activation via node 1, second activation via node 0 by another client; same quiescent-state oracle (mapping targets exactly the code's client and listens for exactly the activator); distinct = (backend, target id, listen id)")
+	ids := []int64{34567890, 1<<53 - 1, 1<<53 + 1, 1<<53 + 3, 1<<62 + 1, 1<<63 - 2, 1<<63 - 1}
+	backends := []string{"memory", "hybrid", "redis", "hybrid-redis"}
+	for _, be := range backends {
+		for _, tid := range ids {
+			for li, lid := range ids {
+				if lid == tid {
+					lid = ids[(li+1)%len(ids)] - 5
+				}
+				run.Case("wide|"+be, []int64{tid, lid})
+				w := c06NewWorldOpt(t, c06Opts{Backend: be, Nodes: 2, TTL: 10 * time.Minute, TargetClient: tid})
+				probe := &c06Call{Thread: "probe1", Kind: "activate", Node: 1, Client: lid, Listen: "no-port-here"}
+				a := &c06Call{Thread: "A", Kind: "activate", Node: 1, Client: lid, Listen: "0.0.0.0:7001"}
+				b := &c06Call{Thread: "late", Kind: "activate", Node: 0, Client: 45678901, Listen: "0.0.0.0:7002"}
+				calls := []*c06Call{probe, a, b}
+				for _, c := range calls {
+					w.do(c)
+				}
+				run.Eval(1)
+				run.Distinct(fmt.Sprintf("%s|%d|%d", be, tid, lid))
+				if a.OK {
+					run.Count("wide_activations_ok", 1)
+					if tid > 1<<53 || lid > 1<<53 {
+						run.Count("wide_activations_ok_id_above_2^53", 1)
+					}
+				}
+				scan := w.scan()
+				if rec := scan.CodeBy["code"]; rec != nil && rec.TargetClientID != tid {
+					run.Count("obs_code_record_target_differs", 1)
+				}
+				for _, f := range c06Judge(w, calls, scan, run) {
+					var maps []string
+					for id, m := range scan.Mains {
+						maps = append(maps, fmt.Sprintf("%s listen_client=%d target_client=%d target=%s", id, m.ListenClientID, m.TargetClientID, m.TargetAddress))
+					}
+					sort.Strings(maps)
+					run.Violation(f.Sig+"|wide-id", map[string]any{"backend": be, "target_client_id": tid, "listen_client_id": lid, "calls": calls, "mapping_records": maps, "index_copies": scan.IdxRefs, "code_record": scan.CodeBy, "reason": f.Reason})
+				}
+				w.close()
+			}
+		}
+	}
+	run.Exhaustive(true)
+	run.Floor("wide_activations_ok", 150)
+	run.Floor("wide_activations_ok_id_above_2^53", 100)
 }
